@@ -202,6 +202,48 @@ static void fragmentHistory(vh::Rng& rng, int L) {
   }
 }
 
+// directed: constituents whose own evaluation status never becomes 'calculated' (term-functions, predicates, a term
+// nobody calculated yet) still have dependants with stored values: editing them must invalidate those values, and a
+// structure typed through such a term must prune its data (seeded change C11-4: the reset wave skipped when the edited
+// constituent itself had no value)
+static void callableHistory(vh::Rng& rng) {
+  RSModel m;
+  emit("c11 reset", "ok");
+  const std::string IN = "\xE2\x88\x88", TIMES = "\xC3\x97", ALL = "\xE2\x88\x80";
+  const auto x1 = m.Emplace(CstType::base);
+  const auto x2 = m.Emplace(CstType::base);
+  for (int k = 0; k < 3; ++k) m.Values().AddBasicElement(x1, "p" + std::to_string(k));
+  m.Values().AddBasicElement(x2, "q");
+  const std::vector<std::string> fbodies = { "[\xCE\xB1" + IN + BOOL + "(X1)] \xCE\xB1" + UNION + "\xCE\xB1", "[\xCE\xB1" + IN + BOOL + "(X1)] \xCE\xB1\\\xCE\xB1",
+    "[\xCE\xB1" + IN + BOOL + "(X1)] X1\\\xCE\xB1", "[\xCE\xB1" + IN + BOOL + "(X1)] D{\xCE\xBE" + IN + "\xCE\xB1 | \xCE\xBE" + IN + "X1}" };
+  const std::vector<std::string> pbodies = { "[\xCE\xB1" + IN + "X1] \xCE\xB1=\xCE\xB1", "[\xCE\xB1" + IN + "X1] \xCE\xB1\xE2\x89\xA0\xCE\xB1", "[\xCE\xB1" + IN + "X1] \xCE\xB1" + IN + "X1" };
+  const auto f1 = m.Emplace(CstType::function, rng.pick(fbodies));
+  const auto p1 = m.Emplace(CstType::predicate, rng.pick(pbodies));
+  const auto d1 = m.Emplace(CstType::term, "F1[X1]");
+  const auto d2 = m.Emplace(CstType::term, "D1" + UNION + "D1");
+  const auto a1 = m.Emplace(CstType::axiom, ALL + "\xCE\xBE" + IN + "X1 P1[\xCE\xBE]");
+  const auto d3 = m.Emplace(CstType::term, "X1");                         // never calculated on purpose
+  const auto s1 = m.Emplace(CstType::structured, BOOL + "(D3)");
+  auto data = object::Factory::EmptySet();
+  data.ModifyB().AddElement(object::Factory::Val(1)); data.ModifyB().AddElement(object::Factory::Val(2));
+  m.Values().SetStructureData(s1, data);
+  for (const auto u : { d1, d2, a1 }) if (rng.chance(3, 4)) m.Calculations().Calculate(u);
+  emit("c11 freshimpl callable-built", freshOracle(m));
+  emit("c11 structvalid callable-built", structOracle(m));
+  for (int step = 0; step < 6; ++step) {
+    const int r = rng.range(0, 5);
+    std::string what;
+    if (r == 0) { m.SetExpressionFor(f1, rng.pick(fbodies)); what = "edit-function"; }
+    else if (r == 1) { m.SetExpressionFor(p1, rng.pick(pbodies)); what = "edit-predicate"; }
+    else if (r == 2) { m.SetExpressionFor(d3, rng.chance(1, 2) ? "X2" : "X1"); what = "retype-through-term"; }
+    else if (r == 3) { m.Calculations().Calculate(rng.pick(std::vector<uint32_t>{ d1, d2, a1 })); what = "calc"; }
+    else if (r == 4) { m.Values().AddBasicElement(x1, "n" + std::to_string(step)); what = "addelem"; }
+    else { m.SetExpressionFor(d1, rng.chance(1, 2) ? "F1[X1]" : "F1[X1\\X1]"); what = "edit-caller"; }
+    emit("c11 freshimpl callable-" + what, freshOracle(m));
+    emit("c11 structvalid callable-" + what, structOracle(m));
+  }
+}
+
 static void generalHistory(vh::Rng& rng, int L) {
   RSModel m;
   emit("c11 reset", "ok");
@@ -295,5 +337,6 @@ int main() {
   const int HF = deep ? 2500 : 250, HG = deep ? 1500 : 150;
   for (int h = 0; h < HF; ++h) { const auto cs = rng.next(); vh::Rng sub(cs); vh::forkedEmit([&] { ccl::verif::Seed(static_cast<uint32_t>(cs)); fragmentHistory(sub, deep ? 35 : 25); }, "c11 crash"); }
   for (int h = 0; h < HG; ++h) { const auto cs = rng.next(); vh::Rng sub(cs); vh::forkedEmit([&] { ccl::verif::Seed(static_cast<uint32_t>(cs)); generalHistory(sub, deep ? 35 : 25); }, "c11 crash"); }
+  for (int h = 0; h < (deep ? 200 : 40); ++h) { const auto cs = rng.next(); vh::Rng sub(cs); vh::forkedEmit([&] { ccl::verif::Seed(static_cast<uint32_t>(cs)); callableHistory(sub); }, "c11 crash"); }
   return 0;
 }
